@@ -82,6 +82,10 @@ impl JoinedTableData {
     }
 
     pub fn add_row(&mut self, join_on_value: Value, row: Row) {
+        if join_on_value.is_null() {
+            return;
+        }
+
         self.rows
             .entry(join_on_value)
             .or_insert_with(|| Vec::new())
